@@ -243,3 +243,7 @@ def run(ctx):
     r17_1(ctx)
     r17_2(ctx)
     r17_3(ctx)
+    # PERT on a reloaded project: predecessor and successor lists are re-linked as saved (C16 re-link table)
+    from .C16 import r16_2
+    from ..jsontab import JsonTables
+    r16_2(ctx, JsonTables(ctx))
